@@ -105,7 +105,13 @@ def run(case):
             return
         kw = {"k": k, "weight_type": wt}
         kw.update(kw_extra)
-        obs = drivers.observe(dict(case, cls=cls, kw=kw), G)
+        if variant.startswith("noise"):
+            # solver answers within tolerance: every value read from the solver shifted by -/+ 5e-10
+            from .. import faults
+            with faults.ValueNoise(-5e-10 if variant.endswith("-") else 5e-10):
+                obs = drivers.observe(dict(case, cls=cls, kw=kw), G)
+        else:
+            obs = drivers.observe(dict(case, cls=cls, kw=kw), G)
         tags[f"{fam}:{variant}"] += 1
         ctx = f"{cls}(k={kmode}={kk}, {wt}, {variant}={kw_extra})"
         if obs["exc"]:
@@ -250,6 +256,8 @@ def run(case):
             one(kmode, wt, "plain", {})
             if len(viol) > 4:
                 return _ret(viol, nt, tags)
+    one("width", "int", "noise-", {})
+    one("width", "int", "noise+", {})
     if not case["full"]:
         return _ret(viol, nt, tags)
     for e in E:
